@@ -22,7 +22,8 @@ open Dd_types
 
 (* ---- per-case state ----------------------------------------------------- *)
 type pend = { pstep : int; ptoks : string list; pres : string;
-              pcap : (int * int array) list; pcap_n : int; pdst : int list }
+              pcap : (int * int array) list; pcap_n : int; pdst : int list;
+              pcapf : (int * int list) list }
 
 let bop_of = function
   | "AND" -> Some Model.OAnd | "OR" -> Some Model.OOr | "XOR" -> Some Model.OXor
@@ -68,7 +69,13 @@ let () =
                | Some sl -> (match Hashtbl.find_opt tts sl with Some v -> Some (sl, v) | None -> None)
                | None -> None)
             else None) toks in
-        { pstep = i; ptoks = toks; pres = res; pcap = cap; pcap_n = !tt_n; pdst = dsts } in
+        let capf = List.filter_map (fun t ->
+            if String.length t > 1 && t.[0] = 'h' then
+              (match int_of_string_opt (String.sub t 1 (String.length t - 1)) with
+               | Some sl -> (match Hashtbl.find_opt fams sl with Some v -> Some (sl, v) | None -> None)
+               | None -> None)
+            else None) toks in
+        { pstep = i; ptoks = toks; pres = res; pcap = cap; pcap_n = !tt_n; pdst = dsts; pcapf = capf } in
 
       (* ------------------------------------------------------------------ *)
       let resolve_pending (step : int) (ps : psnap) =
@@ -307,7 +314,14 @@ let () =
                  | None -> stat "unresolved" 1)
               | ("PICK" | "PICKDD" | "PICKSET" | "PICKUNI") :: _ -> Pick.check ~kname ~n ~ps ~get ~getd ~fail ~check p.pstep t p.pres
               | (("SINGLETON" | "EMPTY" | "BASE" | "SUBSET0" | "SUBSET1" | "CHANGE" | "UNION" | "INTSEC" | "DIFF" | "MAKENODE") as op) :: dst :: rest ->
-                let fam s = Hashtbl.find_opt fams (slot_of s) in
+                (* operand families as captured when the op was issued (the destination may alias an operand);
+                   only valid if no variables were added in between *)
+                let fam s =
+                  let sl = slot_of s in
+                  if List.mem_assoc sl p.pcapf && p.pcap_n = n then Some (List.assoc sl p.pcapf)
+                  else if List.mem sl p.pdst then None
+                  else Hashtbl.find_opt fams sl in
+                let famd s = Hashtbl.find_opt fams (slot_of s) in
                 let exp =
                   match op, rest with
                   | "SINGLETON", [ v ] -> Some [ 1 lsl int_of_string v ]
@@ -330,7 +344,7 @@ let () =
                      | Some x, Some y -> Some (List.sort_uniq compare (List.map (fun s -> s lor (1 lsl v)) x @ y))
                      | _ -> None)
                   | _ -> None in
-                (match exp, fam dst with
+                (match exp, famd dst with
                  | Some e, Some g ->
                    check "C09";
                    Buffer.add_string digest (Printf.sprintf "%d:fam%s;" p.pstep (String.concat "," (List.map string_of_int g)));
